@@ -1,6 +1,6 @@
 add("C02", "exploration",
     "Generated raw HTTP/1.1 requests (grammar over method, escaped/unclean targets, queries, repeated and long header fields, "
-    "hop-by-hop fields, Content-Length and chunked bodies up to MiBs) are sent through the real server and agent binaries; a "
+    "hop-by-hop fields, Content-Length and chunked bodies up to MiBs; usually one at a time, sometimes 2-6 at once) are sent through the real server and agent binaries; a "
     "recording raw-TCP backend compares request line, Host, every end-to-end field's ordered values and the body byte for byte. "
     "Sampling, not proof: the input space is unbounded.",
     "Trusts the harness's own raw parser/serialiser and that net/http semantics of the pinned Go toolchain are the deployment's. "
@@ -16,7 +16,7 @@ add("C03", "exploration",
     "backend sent none, and re-framing (Content-Length/Transfer-Encoding/Trailer/Connection), are allowed.",
     "property-based testing (rapid): grammar-generated responses, two-sided round-trip oracle at a raw client + race detector", "3/C03")
 add("C01", "exploration",
-    "Generated sets of 2-256 concurrent clients (body sizes, backend latencies, start offsets, statuses, framings; GOMAXPROCS of both "
+    "Generated sets of 2-256 concurrent clients (body sizes, backend latencies, start offsets, statuses, framings, some clients giving up after 1-200 ms; GOMAXPROCS of both "
     "binaries generated) run against the real server and agent binaries built with -race; each request carries a unique token that the "
     "harness backend verifies on arrival and echoes into header, cookie, body and trailer together with a per-invocation nonce. Any "
     "foreign token, duplicated nonce, missing response or race/fatal report is a violation. Interleavings are sampled (the race "
@@ -33,7 +33,7 @@ add("C04", "exploration",
     "are evicted first). app/store's own listing is exercised by C19, not here.",
     "property-based testing (rapid): generated list-reply histories against a counting model; concurrent pollers with a multiset oracle", "3/C04")
 add("C05", "exploration",
-    "Generated chunk-size/pause vectors (1 B .. 4 MiB, 1-50 chunks, chunked and Content-Length framing) are produced by a scripted backend "
+    "Generated chunk-size/pause vectors (1 B .. 4 MiB, 1-50 chunks, chunked and Content-Length framing) x five agent configurations (default, session tracking, shim, banner, all) are produced by a scripted backend "
     "in lock-step with a fake proxy that incrementally decodes the agent's upload: chunk i+1 is only produced once every byte of chunk i "
     "was observed at the proxy. A chunk withheld for 5 s while the producer is idle and delivered only after the producer is released "
     "is a confirmed violation; the reassembled body is also compared. 'Bounded time' is checked against that generous bound only.",
@@ -52,7 +52,7 @@ add("C06", "fault_enumeration",
 add("C08", "exploration",
     "(a) utils.ExponentialBackoffDuration is called for retry counts over the full unsigned range (dense around 11/12, powers of two, "
     "2^32, max) and compared with the closed form min(2^n ms, 3 s) x [0.9,1.1] computed in big-integer arithmetic; a native fuzz target "
-    "repeats this in the thorough tier. (b) generated fail/succeed patterns of list calls are served to the real agent binary; lower "
+    "repeats this in the thorough tier. (b) generated fail/succeed patterns of list calls (5xx, 404, garbage, truncated body, error statuses with an empty body) are served to the real agent binary; lower "
     "bounds on the observed gaps (a sleep never returns early) and a reset probe (k>=9 failures, success, failure => short gap, "
     "confirmed on a second run) decide doubling, reset and absence of busy-looping.",
     "Upper bounds on observed gaps are not asserted (load-sensitive) except in the reset probe, where the two alternatives differ by "
@@ -75,8 +75,8 @@ add("C20", "exploration",
     "list-call rule. A bound hit only once is reported as inconclusive.",
     "property-based testing (rapid): generated health-check histories against a counter model; generated signal/phase/grace scenarios with one-sided time bounds", "3/C20")
 add("C07", "fault_enumeration",
-    "34 fault kinds over all injection points (pending list, request fetch, backend connect/headers/body, response upload, shim "
-    "endpoints, unreachable backend) are (a) enumerated exhaustively at three positions of a stream of healthy requests and (b) inserted "
+    "41 fault kinds over all injection points (pending list, request fetch, backend connect/headers/body, response upload, shim "
+    "endpoints incl. a real shim session fed odd message shapes, transport-level failures of list and fetch calls, unreachable backend) are (a) enumerated exhaustively at three positions of a stream of healthy requests and (b) inserted "
     "at generated positions/multiplicities into generated streams of 10-60 healthy concurrent requests, against the real agent binary "
     "(-race, shim and session tracking on) behind a fake proxy and a faulty raw backend. Invariant: agent alive, no race/fatal/panic "
     "output, every healthy request (before, during, after) uploaded with its own content, 502 when the backend is unreachable.",
@@ -85,7 +85,7 @@ add("C07", "fault_enumeration",
     "fault injection driven by rapid-generated request/fault streams + exhaustive kind x position grid; history invariant oracle", "3/C07")
 add("C10", "exploration",
     "Generated request histories (session slots, anonymous and forged ids, hosts, paths, backend Set-Cookie operations incl. deletion, "
-    "path/domain scoping, Secure/HttpOnly, client-supplied extra cookies; cache limit, lifetime and SSL override generated) run against "
+    "path/domain scoping, Secure/HttpOnly, exotic Set-Cookie lines a strict parser skips, client-supplied extra cookies; cache limit, lifetime and SSL override generated) run against "
     "the sessions.Cache handler in-process and are compared step by step with one independent net/http/cookiejar per session id; every "
     "cookie value carries its session tag so a cross-session leak is visible independently of the model; attributes and expiry of the "
     "issued session cookie are checked. A concurrent part runs 8-32 goroutines over shared/different sessions under -race.",
@@ -104,7 +104,7 @@ add("C11", "exploration",
     "stateful property-based testing (rapid): generated message/batching sequences against model queues; JSON-value oracle for injection; native go fuzzing", "3/C11")
 add("C12", "exploration",
     "Generated call histories over three session slots (open, data/poll/close with valid, unknown, already-closed, malformed and wrongly typed "
-    "arguments, backend sends and closes) and concurrent groups of 2-6 calls on one session released from a barrier run against "
+    "arguments and odd message shapes, backend sends, backend closes with and without immediate polling) and concurrent groups of 2-6 calls on one session released from a barrier run against "
     "websockets.Proxy in-process under -race; a state-machine model of the session table yields the allowed status set per call; every "
     "call must be answered (a panic is caught per call, an unanswered call after 15 s is a wedge); the backend must observe client closes, "
     "and polls after a backend close must deliver the queued messages and then 400. Interleavings inside a group are sampled (hundreds of "
@@ -114,7 +114,7 @@ add("C12", "exploration",
     "stateful property-based testing (rapid): generated call histories and barrier-released concurrent groups against a session-table model", "3/C12")
 add("C13", "exploration",
     "Generated shim open bodies (every URL syntax class of net/url: hierarchical with foreign hosts, scheme-relative, path-only, opaque, "
-    "empty, userinfo, IPv6 literals, odd ports, fragments, backslashes, control bytes, plus arbitrary byte strings) run against "
+    "empty, userinfo, IPv6 literals, odd ports, fragments, backslashes, control bytes, plus arbitrary byte strings; with and without --rewrite-websocket-host, foreign Host headers, backend paths that redirect the handshake) run against "
     "websockets.Proxy in-process while the network dialer used by the code is replaced by a recorder that refuses every address but the "
     "backend's; confinement oracle on every recorded address, and path/query/Host of the handshake when it reaches the backend. A second "
     "property sends generated requests outside the shim prefix and compares what the wrapped handler receives. A native fuzz target "
@@ -127,7 +127,7 @@ add("C14", "exploration",
     "are compared with the wrapped handler's own response under a set-valued reference predicate written from the property text (altered "
     "=> GET, Accept text/html, 200, non-attachment, HTML type; already framed => body identical, only cache/frame headers differ; frame "
     "served => banner, frame src = requested URL, uncacheable, X-Frame-Options sameorigin). Shim script: generated bodies with <head> at "
-    "offsets around the 1024-byte window and generated read segmentations run through websockets.ShimBody (optionally followed by the "
+    "offsets around the 1024-byte window (ASCII, multi-byte and invalid-UTF-8 filler) and generated read segmentations run through websockets.ShimBody (optionally followed by the "
     "banner handler); the body must be the original or the original with exactly one script block spliced after the first <head>, and "
     "must be spliced when <head> lies inside the first read. Native fuzz targets repeat both oracles on raw inputs in the thorough tier.",
     "The predicate is liberal about letter case of media types (the code may recognise fewer documents as HTML, never more). The handler-level "
@@ -138,13 +138,13 @@ add("C15", "exploration",
     "values, read-buffer sizes 1..64 KiB, pauses, both directions at once) run through the real tcp-bridge-frontend and tcp-bridge-backend "
     "binaries (-race) to a harness TCP server; every stream is a deterministic function of connection id and direction and is compared by "
     "length, content and hash at the receiver. Non-bridge HTTP requests sent to the bridge backend are compared at a recording raw backend. "
-    "connection.WebsocketNetConn is additionally exercised in-process (rapid + native fuzz target) for write/read reassembly.",
+    "connection.WebsocketNetConn is additionally exercised in-process (1-4 pairs at the same time; rapid + native fuzz target) for write/read reassembly and isolation between connections.",
     "Completion is detected by byte count (not by close, which is property C16). X-Forwarded-For, which the passthrough reverse proxy "
     "appends to, is not generated.",
     "property-based testing (rapid) + native go fuzzing: generated write/read segmentations, round-trip equality of byte streams", "3/C15")
 add("C16", "exploration",
-    "Generated histories of 1-20 bridged connections (closer = client or server, byte counts in both directions, close mode clean / dirty "
-    "/ both-at-once, start offsets) run through the real bridge binaries; the far peer must observe end-of-stream within 5 s of the close, "
+    "Generated histories of 1-20 bridged connections (closer = client or server, byte counts in both directions, close mode clean / dirty / dirty-quiet "
+    "/ both-at-once / target-down, start offsets) run through the real bridge binaries; the far peer must observe end-of-stream within 5 s of the close, "
     "for clean closes after reading exactly the bytes written before it, and the file-descriptor counts of both bridge processes "
     "(/proc/<pid>/fd) must return to their baseline once every endpoint is closed. Orders and timings are sampled.",
     "A close is 'clean' when the closer has read everything sent to it and the far side is quiescent (a TCP peer closing with unread input "
@@ -163,7 +163,7 @@ add("C18", "exploration",
     "property-based testing (rapid) against an independent set-valued specification; metamorphic and determinism relations; bounded-exhaustive enumeration in the thorough tier", "3/C18")
 add("C17", "exploration",
     "Generated call histories (admin API calls by five kinds of caller, agent pending/request/response calls with every combination of "
-    "OAuth identity, backend id and request id class, end-user requests by owners, other users and anonymous callers) run against the three "
+    "OAuth identity, backend id and request id class, re-registration of a backend id for another agent account or end user, end-user requests by owners, other users and anonymous callers) run against the three "
     "services of the real App Engine proxy binary (-race) on a wire-level fake of datastore_v3/memcache/user, the harness playing the App "
     "Engine front end; a reference access-control model gives the status class of every call (401/403/404/400/200), and the registry, the "
     "Completed flags and the routing of stored requests are read back from the fake datastore after each step; clients must receive exactly "
@@ -176,7 +176,7 @@ add("C19", "fault_enumeration",
     "proxy binary (-race) on the fake App Engine API, with harness-played agents listing, fetching and responding in generated orders; "
     "payloads are calibrated so that the serialised size lands exactly on 999999/1000000/1000001/1999999/2000000/2000001/3.5M; fetched "
     "bytes must parse back to the client's own request and each client must receive the response posted under its own id; completed ids "
-    "must leave the pending list. Blobs: write/read round trips through cache+store in-process at the same sizes with memcache kept or "
+    "must leave the pending list. Blobs: write/read round trips through cache+store in-process at the same sizes and at 11-31 MB (ten and more parts) with memcache kept or "
     "flushed. Faults: subsets of nine store operations fail for their first 1-5 matching calls during a generated phase; every call must "
     "return within 8 s (the waiting client within 45 s) with a correct result or an error status, and a re-posted response must arrive "
     "intact. The fault space (subset x count x phase x sizes) is sampled, not enumerated; the 504 path runs once in the thorough tier.",
